@@ -60,6 +60,8 @@ HOSTILE_TEXT = [
     # runs of blanks where a writer would fold a long line
     'w' * 118 + '  ' + 'z' * 20, 'a  b' * 50, 'x' * 100 + ' ' * 40 + 'y',
     'p   q ' * 30, "'lead", "''", '@a', 'a' * 300,
+    # ... also far out, where a "generous" line width would still fold
+    'w' * 8185 + '   ' + 'z' * 30, 'q  r ' * 2500, 'x' * 70000 + '  y  z',
 ]
 HOSTILE_NUM = [1e-7, 1e22, -0.0, 5e-324, 2 ** 53 + 1, 0.1 + 0.2, 1e100,
                123456789012345678, 1.5, -3, 1e-320, 1.7976931348623157e308,
@@ -334,7 +336,13 @@ def check_case(rec, spec, hostile, fmt, cycles, extra, pre, post, loader,
                                  f'{a}: original {before[a]!r}, loaded '
                                  f'{fmt} model gives {got!r}')
                             return
-                if loader == 'thread':
+                # every other case goes straight to the post-load history: the
+                # comparison of all cells would calculate everything first and
+                # so repair what a loader left half-built
+                history_first = len(post) % 2 == 1 and loader != 'thread'
+                if history_first:
+                    rec.label('history-before-first-comparison')
+                elif loader == 'thread':
                     try:
                         run_on_thread(compare_all)
                     except Exception as exc:
@@ -578,6 +586,39 @@ def check_source_hash(rec):
                      repr(exc)[:300])
 
 
+def check_error_members(rec):
+    """a formula cell that holds an error value when the model is saved, read
+    through a range by other formulas; after loading, its precedent is written
+    before / after the cell and its readers are first evaluated"""
+    IN = wbspec.INSHEET
+    variants = {
+        'value': {'A1': 'a', 'B1': 2, 'C1': '=A1+B1'},
+        'div0': {'A1': 0, 'B1': 2, 'C1': '=B1/A1'},
+        'na': {'A1': 9, 'B1': 2, 'C1': '=MATCH(A1,B1:B2,0)', 'B2': 3},
+        'ref-chain': {'A1': 0, 'B1': 2, 'C3': '=B1/A1', 'C1': '=C3+1'},
+    }
+    histories = [
+        [('set', 0, 3)],
+        [('set', 0, 3), ('eval', 1), ('eval', 2)],
+        [('eval', 0), ('set', 0, 3), ('eval', 1)],
+        [('eval', 1), ('set', 0, 3), ('eval', 1), ('set', 0, 2), ('eval', 2)],
+        [('set', 1, 7), ('set', 0, 2), ('eval', 2), ('eval', 0)],
+    ]
+    for (name, cells), fmt, hist, cycles in itertools.product(
+            variants.items(), ('yml', 'json', 'pkl'), histories,
+            (False, True)):
+        sheet = dict(cells, C2=5, D1='=SUM(C1:C2)', E1='=COUNT(C1:C2)',
+                     F1='=IFERROR(C1,-1)+D1')
+        spec = dict(sheets={IN: {'B3': 1}, 'S': sheet}, arrays=[], names={},
+                    active='S', inputs=['S!A1', 'S!B1', 'S!C2'],
+                    formulas=['S!C1', 'S!D1', 'S!E1', 'S!F1'],
+                    ranges=['S!C1:C2'])
+        check_case(rec, spec, [], fmt, cycles, None, [], hist, 'same')
+    rec.exhaustive.append('error-valued range member x 4 error kinds x 3 '
+                          'formats x 5 post-load histories x {plain, '
+                          'iterative}')
+
+
 def check_open_findings(rec):
     from pycel.excelcompiler import ExcelCompiler
     for fmt in ('yml', 'json', 'pkl'):
@@ -707,6 +748,7 @@ def run_shard(shard, rec):
     if shard['kind'] == 'open':
         check_open_findings(rec)
         check_source_hash(rec)
+        check_error_members(rec)
     elif shard['kind'] == 'saves-enum':
         import itertools
         spec = dict(sheets={'S': {'A1': 1, 'B1': 2, 'A2': '=A1+B1',
